@@ -129,7 +129,12 @@ var vttmlDoc *TTMLIn
 var vttmlItems []TTMLInItems
 var vttmlItemsPos int
 
+var vxmlFault bool // the XML layer reports a failure of the underlying stream (C18)
+
 func vstubXMLDecode(v interface{}) error {
+	if vxmlFault {
+		return verrFault
+	}
 	switch t := v.(type) {
 	case *TTMLIn:
 		if vttmlDoc == nil {
